@@ -15,7 +15,7 @@ ASSUMPTIONS = ['Euler round trip compared modulo 2 pi with tolerance 1e-12 / cos
                'powers: 1e-10 for angles >= 1e-2, 1e-6 below (same arccos conditioning, amplified by |a| <= 3)', 'powers: q**a compared as a rotation (sign-agnostic) AND as a quaternion for |a theta| <= pi (principal branch)',
                'exp(log q) = q: 1e-12 for angles >= 1e-2, 1e-7 below (the logarithm uses arccos of the scalar part, absolute error eps/sin(theta/2))',
                'matrix <-> axis-angle parameter comparison near 0 and pi is not made: arccos of the trace loses half of the digits there']
-REQUIRED_CLASSES = ['rpy', 'rpy:degrees', 'axang', 'explog:unit', 'explog:nonunit', 'pow', 'pow-pairs', 'seq len1', 'seq len2', 'seq len3', 'log:small', 'log:regular', 'orders-and-objects', 'keyword-order']
+REQUIRED_CLASSES = ['rpy', 'rpy:degrees', 'axang', 'explog:unit', 'explog:nonunit', 'pow', 'pow-pairs', 'seq len1', 'seq len2', 'seq len3', 'log:small', 'log:regular', 'orders-and-objects', 'objects:changed-in-place', 'keyword-order']
 
 PI = math.pi
 RY = [-PI + 1e-9, -3.0, -PI / 2, -1.0, -1e-3, -1e-9, 0.0, 1e-9, 1e-3, 0.7, PI / 2, 2.0, 2.5, 3.0, PI - 1e-9, PI]     # roll / yaw, 16
@@ -413,6 +413,42 @@ def job_orders_and_objects(ctx, lo, hi):
                        f'{nm} is read-only: the object holds the same numbers afterwards', key, [np.asarray(H, float), np.asarray(S, float)], [h0, s0])
             if not np.array_equal(np.asarray(H, float), h0) or not np.array_equal(np.asarray(S, float), s0):
                 H = Quaternion(q.copy()); S = Quaternion(np.roll(q, -1).copy(), order='S')
+        # history on one object: conversions asked, the object CHANGED in place (element assignment, normalize() of a non-unit object),
+        # conversions asked again -> they describe the new value (= what a fresh object holding the new numbers answers)
+        other = rq.qmul(q, rq.axang2q([0.3, -0.5, 0.8], 0.9))
+        for how in ('q[:] = other', 'q *= -1 (element-wise, same rotation)', 'normalize() of a versor=False object'):
+            try:
+                if how.startswith('normalize'):
+                    Hh = Quaternion(2.5 * q, versor=False)
+                    for nm, fn in readers[:6]:
+                        fn(Hh)
+                    Hh.normalize()
+                    newv = np.array(Hh, float)
+                elif how.startswith('q[:]'):
+                    Hh = Quaternion(q.copy())
+                    for nm, fn in readers:
+                        fn(Hh)
+                    Hh[:] = other
+                    newv = np.array(Hh, float)
+                else:
+                    Hh = Quaternion(q.copy())
+                    for nm, fn in readers:
+                        fn(Hh)
+                    np.negative(np.asarray(Hh), out=np.asarray(Hh))
+                    newv = np.array(Hh, float)
+                Fh = Quaternion(newv.copy(), versor=False)
+            except Exception as ex:
+                ctx.outcome(('in-place-change-refused', how)); continue
+            for nm, fn in readers:
+                ctx.evals += 1
+                try:
+                    with np.errstate(all='ignore'):
+                        got, exp = fn(Hh), fn(Fh)
+                except Exception as ex:
+                    ctx.fail(f'{nm} raises after the object was changed in place', f'{key} change={how}', repr(ex)[:120], 'the answer of a fresh object'); continue
+                ctx.expect(got.shape == exp.shape and np.array_equal(np.isnan(got), np.isnan(exp)) and float(np.nanmax(np.abs(np.nan_to_num(got) - np.nan_to_num(exp)))) <= 1e-12,
+                           f'{nm}: after the object was changed in place the answer describes the NEW value (that of a fresh object holding the same numbers)', f'{key} change={how}', got, exp, 1e-12)
+        ctx.cls('objects:changed-in-place')
         Rref = rq.axang2R(n, ang)
         D = DCM(Rref.copy())
         for nm, fn in (('to_axisangle', lambda: np.concatenate([np.ravel(np.asarray(x, float)) for x in D.to_axisangle()])), ('log', lambda: np.asarray(D.log, float)),
